@@ -18,6 +18,7 @@ var gens = map[string]func(props.Ctx) *report.Report{
 	"C05": props.C05,
 	"C06": props.C06,
 	"C07": props.C07,
+	"C08": props.C08,
 	"C12": props.C12,
 	"C15": props.C15,
 	"C18": props.C18,
